@@ -468,3 +468,17 @@ def conclude(agg):
 def coverage_extra(agg):
     ex = agg["extras"][0] if agg["extras"] else {}
     return {"wrapped_steps": ex.get("wrapped_steps"), "assignments_per_pair": len(INTS) ** 2 * len(BOOLS) ** 2}
+
+
+def replay(rec):
+    from ..runner import ReplayCtx
+
+    ctx = ReplayCtx()
+    obs = Observer()
+    obs.install()
+    case = rec["case"]
+    if "dnf" in case:
+        check_normalize(ctx, obs, Table3VL(), case["expr"], 1)
+    else:
+        check_expr(ctx, obs, Table3VL(), case["expr"], 1, case.get("options") or {}, case.get("typed", False), case.get("dialect") or "duckdb")
+    return ctx.report()
